@@ -40,9 +40,15 @@ package unary
 //@   # at the end of the bounds the view is the empty point at bounds.End
 //@   ensures  !i.closed && old(i.view.End) == old(i.bounds.End) ==> i.view.Start == i.bounds.End && i.view.End == i.bounds.End
 //@   ensures  !i.closed ==> wfIter(i)
+//@   # no sample is skipped: a domain the step moves past holds no data beyond the end of the view
+//@   # (the next view starts there), and the iterator never moves backwards
+//@   ensures  domain.SpecIterPos(i.internal) >= old(domain.SpecIterPos(i.internal))
+//@   ensures  forall k int :: old(domain.SpecIterPos(i.internal)) <= k && k < domain.SpecIterPos(i.internal) ==> domain.SpecIterDomainAt(i.internal, k).End <= i.view.End
 //@   modifies i, i.internal
 //@   loop 0 modifies &i.frame, &i.err, i.internal
 //@   loop 0 invariant domain.SpecIterWF(i.internal) && domain.SpecIterOK(i.internal)
+//@   loop 0 invariant domain.SpecIterPos(i.internal) >= old(domain.SpecIterPos(i.internal))
+//@   loop 0 invariant forall k int :: old(domain.SpecIterPos(i.internal)) <= k && k < domain.SpecIterPos(i.internal) ==> domain.SpecIterDomainAt(i.internal, k).End <= i.view.End
 
 //@ func (i *Iterator) Prev(ctx context.Context, span telem.TimeSpan) (ok bool)
 //@   requires wfIter(i) && span >= 0 && domain.SpecIterWF(i.internal) && domain.SpecIterOK(i.internal)
@@ -52,9 +58,14 @@ package unary
 //@   ensures  !i.closed && old(i.view.Start) != old(i.bounds.Start) ==> i.view.End == old(i.view.Start) && int64(i.view.Start) == max(int64(old(i.view.Start)) - int64(span), int64(i.bounds.Start))
 //@   ensures  !i.closed && old(i.view.Start) == old(i.bounds.Start) ==> i.view.Start == i.bounds.Start && i.view.End == i.bounds.Start
 //@   ensures  !i.closed ==> wfIter(i)
+//@   # mirrored: a domain the step moves back past holds no data before the start of the view
+//@   ensures  domain.SpecIterPos(i.internal) <= old(domain.SpecIterPos(i.internal))
+//@   ensures  forall k int :: domain.SpecIterPos(i.internal) < k && k <= old(domain.SpecIterPos(i.internal)) && 0 <= k && k < domain.SpecIterLen(i.internal) && old(domain.SpecIterValid(i.internal)) ==> domain.SpecIterDomainAt(i.internal, k).Start >= i.view.Start
 //@   modifies i, i.internal
 //@   loop 0 modifies &i.frame, &i.err, i.internal
 //@   loop 0 invariant domain.SpecIterWF(i.internal) && domain.SpecIterOK(i.internal)
+//@   loop 0 invariant domain.SpecIterPos(i.internal) <= old(domain.SpecIterPos(i.internal))
+//@   loop 0 invariant forall k int :: domain.SpecIterPos(i.internal) < k && k <= old(domain.SpecIterPos(i.internal)) && 0 <= k && k < domain.SpecIterLen(i.internal) && old(domain.SpecIterValid(i.internal)) ==> domain.SpecIterDomainAt(i.internal, k).Start >= i.view.Start
 
 //@ # which bound of the distance approximation is used as the sample offset (selection table)
 //@ func pickSampleOffset(approx index.DistanceApproximation) (off int64)
